@@ -457,6 +457,9 @@ func BuildReplay(pc *PathCtx, model map[string]uint64) *ReplayInfo {
 			as = append(as, fmt.Sprintf("*(outs[%d].(*%s)) = %s", j, b.typ(rt), b.expr(c.Result, rt)))
 			oi++
 		}
+		if c.Repeats > 0 {
+			ri.Unsupported = "a custom function is called repeatedly with identical arguments (assumed pure): native replay not available"
+		}
 		ri.Hooks = append(ri.Hooks, fmt.Sprintf("case %d:\n\t\t\tif name != %q {\n\t\t\t\tfmt.Println(\"VERIF-REPLAY-MISMATCH call\", calls, name)\n\t\t\t}\n\t\t\t%s", k, c.Name, strings.Join(as, "\n\t\t\t")))
 	}
 	ri.Stmts = b.stmts
